@@ -105,6 +105,26 @@ fn build_fileset(ctx: &Ctx, acc: &mut Acc, n_gen: u64) -> FileSet {
             acc.cov("files:same-length-variants");
         }
     }
+    // same-length twins with a different line layout: the text with 0 / 2 empty lines in front and 3 / 1 behind
+    let n1 = n0.min(14);
+    for i in 0..n1 {
+        for (tag, j) in [("a", 0usize), ("b", 2usize)] {
+            let t = format!("{}{}{}", "\n".repeat(j), texts[i], "\n".repeat(3 - j));
+            if crate::dets::parses(&t) {
+                names.push(format!("{}~shift-{}", names[i], tag));
+                texts.push(t);
+                acc.cov("files:same-length-shifted-twins");
+            }
+        }
+    }
+    // files without any definition
+    for (i, t) in MINIMAL_FILES.iter().enumerate() {
+        if crate::dets::parses(t) {
+            names.push(format!("minimal:{}", i));
+            texts.push(t.to_string());
+            acc.cov("files:minimal");
+        }
+    }
     // baselines in parallel (one fresh process per file)
     let results: std::sync::Mutex<Vec<(usize, Result<BTreeMap<&'static str, Option<Lines>>, String>)>> = std::sync::Mutex::new(vec![]);
     let next = std::sync::atomic::AtomicUsize::new(0);
@@ -131,7 +151,12 @@ fn build_fileset(ctx: &Ctx, acc: &mut Acc, n_gen: u64) -> FileSet {
 }
 
 fn observe(fs: &FileSet, fi: usize, det: &(&'static str, Det), file_no: usize, ctxs: &str, acc: &mut Acc) {
-    let got = guarded(|| det.1.lines(&fs.texts[fi], file_no)).ok();
+    observe_text(fs, fi, &fs.texts[fi], det, file_no, ctxs, acc)
+}
+
+/// `text` is the content of file `fi`, possibly held in a buffer that other contents occupied before
+fn observe_text(fs: &FileSet, fi: usize, text: &str, det: &(&'static str, Det), file_no: usize, ctxs: &str, acc: &mut Acc) {
+    let got = guarded(|| det.1.lines(text, file_no)).ok();
     acc.eval();
     let exp = match fs.base[fi].get(det.0) {
         Some(e) => e,
@@ -199,6 +224,33 @@ pub fn run(ctx: &Ctx) -> i32 {
                 }
             }
         }
+        // one buffer, several contents in turn: same address, and for the shifted twins the same length too
+        let mut buf = String::with_capacity(1 << 20);
+        for _ in 0..rng.range(2, 8) {
+            let fi = rng.below(nfiles);
+            let det = rng.pick(&dets::ALL);
+            let fno = rng.below(3);
+            let mut seq = vec![fi];
+            for tag in ["a", "b"] {
+                if let Some(vi) = fs.names.iter().position(|n| *n == format!("{}~shift-{}", fs.names[fi], tag)) {
+                    seq.push(vi);
+                }
+            }
+            if seq.len() == 3 && rng.chance(1, 2) {
+                seq.remove(0);
+            }
+            rng.shuffle(&mut seq);
+            seq.push(seq[0]);
+            for &x in &seq {
+                if fs.texts[x].len() <= buf.capacity() {
+                    buf.clear();
+                    buf.push_str(&fs.texts[x]);
+                    acc.cov("reused-buffer-call");
+                    let b: &str = &buf;
+                    observe_text(&fs, x, b, det, fno, "sequential-reused-buffer", acc);
+                }
+            }
+        }
         if k == 0 {
             acc.sample(json!({"history": "sequential", "calls": len, "shared_files": small.iter().map(|i| fs.names[*i].clone()).collect::<Vec<_>>()}));
         }
@@ -254,6 +306,15 @@ pub fn run(ctx: &Ctx) -> i32 {
         let mut namesake: Option<usize> = None;
         if rng.chance(1, 3) {
             let mut sj = rng.below(nfiles);
+            // half of the time a same-length twin of the probe with another line layout, when there is one
+            if rng.chance(1, 2) {
+                let base_name = fs.names[fi].trim_end_matches("~shift-a").trim_end_matches("~shift-b").to_string();
+                let cands: Vec<usize> = ["~shift-a", "~shift-b", "~same-length-variant"].iter().filter_map(|t| fs.names.iter().position(|n| *n == format!("{}{}", base_name, t))).filter(|x| *x != fi && fs.texts[*x].len() == fs.texts[fi].len()).collect();
+                if !cands.is_empty() {
+                    sj = *rng.pick(&cands);
+                    acc.cov("directory:namesake-is-a-same-length-twin");
+                }
+            }
             let mut tries = 0;
             while (fs.base[sj].values().any(|v| v.is_none()) || sj == fi) && tries < 20 {
                 sj = rng.below(nfiles);
